@@ -23,10 +23,10 @@ def plan(tier, seed):
         jobs += [dict(kind='graph', N=4, kinds=2, via='api', hist=1, max_edges=4)]
     else:
         jobs += [dict(kind='graph', N=n, kinds=4, via=v, hist=3) for n in (1, 2, 3) for v in ('api', 'source')]
-        for first in range(4):
+        for first in range(3):
             jobs.append(dict(kind='graph', N=4, kinds=3, via='api', hist=1, fix01=first))
         jobs.append(dict(kind='graph', N=4, kinds=4, via='source', hist=1, max_edges=4))
-        jobs.append(dict(kind='graph', N=5, kinds=3, via='api', hist=1, max_edges=5))
+        jobs.append(dict(kind='graph', N=5, kinds=2, via='api', hist=1, max_edges=4))
     # side-effect-only commands (execute() returns None), consumers that never read their list inputs,
     # result names that differ only in letter case
     nmax = 3
